@@ -14,9 +14,11 @@ flushes, decoded input, …) is HIDDEN and may happen anywhere in between.
 
 `accepts` is a subset construction: the set of model states compatible with the observations so
 far, closed under hidden steps.  It is only a CHECKER (part of the correspondence machinery, like
-the stream drivers); the theorems are about `step`.  Soundness of the checker (`accepts = true →
-there is a model run with that projection`) is by construction of `advance`: every state it keeps
-is reached from a kept state by `step` along labels of the alternative chosen.
+the stream drivers); the theorems are about `step`.  Soundness of the checker (accepted → there is
+a model run from `init0 c` with that observable projection) is PROVED in `Tea.Proofs.LifeAccept`
+(`closure_sound`, `advance_sound`, `accepts_sound`, `firstRejected_sound`, and for the function the
+driver calls `firstRejectedWith_sound`), for an arbitrary transition function; completeness holds
+as long as no closure runs out of fuel (`accepts_complete`).
 -/
 namespace Tea.Runtime.Life
 
@@ -53,22 +55,56 @@ def hiddenLabels (nSenders : Nat) : List Label :=
 
 abbrev StSet := Std.HashSet St
 
-/-- states reachable by hidden steps (breadth first, bounded by `fuel` rounds) -/
-def closure (hid : List Label) (fuel : Nat) (seen : StSet) (frontier : List St) : StSet :=
-  match fuel with
-  | 0 => seen
-  | fuel + 1 =>
-    if frontier.isEmpty then seen else
-    let (seen', next) := frontier.foldl (fun (acc : StSet × List St) s =>
-      hid.foldl (fun (acc : StSet × List St) l =>
-        match step s l with
-        | some s' => if acc.1.contains s' then acc else (acc.1.insert s', s' :: acc.2)
-        | none => acc) acc) (seen, [])
-    closure hid fuel seen' next
+/-
+The closure is written for an ARBITRARY transition function `stp : σ → ι → Option σ` (the proofs in
+`Tea.Proofs.LifeAccept` never look inside `step`).  The hash set is only the "already seen" test;
+the states themselves are carried in lists next to it (`all` = every state inserted so far, `next`
+= the ones inserted in the current round), so that soundness does not depend on the hash set at all:
+whatever `contains` answers, a state gets into `all` only as `stp s l = some s'` of a state already
+there.
+-/
+structure Work (σ : Type) [BEq σ] [Hashable σ] where
+  seen : Std.HashSet σ
+  all : List σ
+  next : List σ
 
+section Generic
+variable {σ ι : Type} [BEq σ] [Hashable σ]
+
+/-- record `s'` unless it was seen before -/
+@[inline] def Work.visit (w : Work σ) (s' : σ) : Work σ :=
+  if w.seen.contains s' then w else ⟨w.seen.insert s', s' :: w.all, s' :: w.next⟩
+
+/-- one round: every `hid` successor of every state of `frontier` -/
+@[specialize] def expand (stp : σ → ι → Option σ) (hid : List ι) (w : Work σ) (frontier : List σ) : Work σ :=
+  frontier.foldl (fun w s =>
+    hid.foldl (fun w l =>
+      match stp s l with
+      | some s' => w.visit s'
+      | none => w) w) w
+
+/-- states reachable by hidden steps (breadth first, bounded by `fuel` rounds); `frontier` = the
+states found in the round before, `all` = every state found so far (`seen` as a list) -/
+@[specialize] def closureG (stp : σ → ι → Option σ) (hid : List ι) :
+    Nat → Std.HashSet σ → List σ → List σ → List σ
+  | 0, _, all, _ => all
+  | fuel + 1, seen, all, frontier =>
+    if frontier.isEmpty then all else
+    let w := expand stp hid ⟨seen, all, []⟩ frontier
+    closureG stp hid fuel w.seen w.all w.next
+
+/-- the rounds of breadth-first search the closure may take -/
+def closureFuel : Nat := 4096
+
+@[specialize] def closeSetG (stp : σ → ι → Option σ) (hid : List ι) (ss : List σ) : List σ :=
+  let w : Work σ := ss.foldl Work.visit ⟨{}, [], []⟩
+  closureG stp hid closureFuel w.seen w.all w.next
+
+end Generic
+
+/-- the states of `ss` (without repetitions) and everything reachable from them by hidden steps -/
 def closeSet (hid : List Label) (ss : List St) : List St :=
-  let seen : StSet := ss.foldl (fun acc s => acc.insert s) {}
-  (closure hid 4096 seen ss).toList
+  closeSetG step hid ss
 
 def runSeq (s : St) : List Label → Option St
   | [] => some s
@@ -76,17 +112,20 @@ def runSeq (s : St) : List Label → Option St
     | some s' => runSeq s' ls
     | none => none
 
-/-- one observation applied to every compatible state -/
+/-- one observation applied to every compatible state: the states right after the labels of the alternative chosen -/
+def observe (ss : List St) (o : Obs) : List St :=
+  match o with
+  | .lab l => ss.filterMap (fun s => step s l)
+  | .alts as orIf => ss.flatMap (fun s => (if orIf s then [s] else []) ++ as.filterMap (fun ls => runSeq s ls))
+  | .elExited => ss.filter (fun s => match s.el with | .exited _ => true | _ => false)
+  | .shCancelBy k =>
+    ss.flatMap (fun s =>
+      -- the caller is new (Kill(), or the panic handler of a command goroutine): it arrives and cancels
+      (if s.killers.length = k then (runSeq s [.killCall, .shCancel (some k)]).toList else []) )
+
+/-- … followed by any number of hidden steps -/
 def advance (hid : List Label) (ss : List St) (o : Obs) : List St :=
-  let next : List St := match o with
-    | .lab l => ss.filterMap (fun s => step s l)
-    | .alts as orIf => ss.flatMap (fun s => (if orIf s then [s] else []) ++ as.filterMap (fun ls => runSeq s ls))
-    | .elExited => ss.filter (fun s => match s.el with | .exited _ => true | _ => false)
-    | .shCancelBy k =>
-      ss.flatMap (fun s =>
-        -- the caller is new (Kill(), or the panic handler of a command goroutine): it arrives and cancels
-        (if s.killers.length = k then (runSeq s [.killCall, .shCancel (some k)]).toList else []) )
-  closeSet hid next
+  closeSet hid (observe ss o)
 
 def acceptsFrom (hid : List Label) : List St → List Obs → Nat → Option Nat
   | _, [], _ => none
@@ -94,6 +133,18 @@ def acceptsFrom (hid : List Label) : List St → List Obs → Nat → Option Nat
     match advance hid ss o with
     | [] => some i
     | ss' => acceptsFrom hid ss' os (i + 1)
+
+/-- `acceptsFrom`, reporting in addition how many states were compatible before the rejected observation -/
+def rejectedAt (hid : List Label) : List St → List Obs → Nat → Option (Nat × Nat)
+  | _, [], _ => none
+  | ss, o :: os, i =>
+    match advance hid ss o with
+    | [] => some (i, ss.length)
+    | ss' => rejectedAt hid ss' os (i + 1)
+
+/-- the checker, from Run's entry, for a given set of hidden labels -/
+def firstRejectedWith (hid : List Label) (c : Config) (obs : List Obs) : Option (Nat × Nat) :=
+  rejectedAt hid (closeSet hid [init0 c]) obs 0
 
 /-- `none`: the model has a run with exactly this observable history; `some i`: no model run
 explains observation number `i` after the ones before it -/
